@@ -233,11 +233,18 @@ func runRound(sp spec, round int, res *result, ops *counter) {
 	if s := mon.ScorchOf(idx); s != nil {
 		d.Arm(s)
 	}
-	// some initial content
+	// some initial content: 30 small segments plus one large one (un-inverting a field of a large segment for
+	// facets/sorts takes long enough for concurrent searches to meet in it; every merge creates a fresh large one)
 	for i := 0; i < 30; i++ {
 		id := corpus.DocID(i)
 		_ = idx.Index(id, corpus.GenDoc(g, id).Fields)
 	}
+	bulk := idx.NewBatch()
+	for i := 0; i < 600; i++ {
+		id := fmt.Sprintf("bulk%03d", i)
+		_ = bulk.Index(id, corpus.GenDoc(g, id).Fields)
+	}
+	_ = idx.Batch(bulk)
 	var closed atomic.Bool
 	var inWrite, inSearch atomic.Int32
 	var overlapW, overlapS atomic.Bool
@@ -331,7 +338,7 @@ func runRound(sp spec, round int, res *result, ops *counter) {
 					req.AddFacet("tags", bleve.NewFacetRequest("tag", 5))
 				}
 				// a field without persisted doc values: concurrent searches un-invert it on the fly
-				if lg.Chance(1, 3) {
+				if lg.Chance(1, 2) {
 					req.AddFacet("words", bleve.NewFacetRequest("notv", 5))
 				}
 				if lg.Chance(1, 4) {
